@@ -22,7 +22,7 @@ import (
 
 var registry = map[string]func() Check{}
 
-const thoroughStateCap = 4000
+const thoroughStateCap = 2500
 
 type SeqCheck struct {
 	Prop       string
